@@ -17,6 +17,7 @@ structure DState where
   recv : List RState := []          -- per peer: MessageReceiver state
   wallet : Wallet := Wallet.empty
   book : Book := Book.empty
+  store : Store := Store.empty
   cand : Option (CoinState × Summary × Nat × List CTx) := none
 
 def defaultParams : Params := {
@@ -385,6 +386,24 @@ def bookStep (d : DState) (args : List String) : DState × String :=
   | ["digest"] => (d, bookDigest b)
   | _ => (d, "bad-op")
 
+def storeStep (d : DState) (C : Crypto) (args : List String) : DState × String :=
+  match args with
+  | ["new"] => ({ d with store := Store.empty }, "ok")
+  | "write" :: blks =>
+    (match blks.mapM fun h => Block.ofBytes C (hx h) with
+      | some bs =>
+        let (s', okFlag) := d.store.write C bs
+        ({ d with store := s' }, if okFlag then "ok" else "fail")
+      | none => (d, "bad-op"))
+  | ["read"] =>
+    let blocks := d.store.read
+    let rows := blocks.map fun b =>
+      (natToBytes 8 b.height ++ b.id C,
+       s!"{b.height}:{short (b.id C)}:{short (sha256 (encBlock b))}:" ++ String.intercalate "+" (b.txs.map fun t => short (t.id C)))
+    let sorted := rows.mergeSort fun a b => !(bytesLt b.1 a.1)
+    (d, s!"n={blocks.length} " ++ String.intercalate "," (sorted.map (·.2)))
+  | _ => (d, "bad-op")
+
 def step (d : DState) (line : String) : DState × String :=
   let C := d.crypto
   match (line.trimAscii.toString.splitOn " ").filter (· ≠ "") with
@@ -426,6 +445,7 @@ def step (d : DState) (line : String) : DState × String :=
   | "node" :: args => nodeStep d C args
   | "w" :: args => walletStep d C args
   | "book" :: args => bookStep d args
+  | "store" :: args => storeStep d C args
   | ["p", name, v] =>
     (match v.toInt? with
       | some k => (match setParam d.params name k with
